@@ -368,6 +368,9 @@ type Explorer struct {
 	Known     []KnownFinding
 	pcSeen    map[string]bool
 	retries   map[string]int
+	model     map[string]evalVal // the last model, if it still satisfies the path condition
+	modelOK   bool
+	ModelEval bool // experimental accelerator (eval.go); off: it saved 44% of the queries but no time
 
 	FeasMS     int
 	AssertMS   int
@@ -414,6 +417,7 @@ func (e *Explorer) begin(prefix []int) {
 	e.ufApps = nil
 	e.shuffles = nil
 	e.schedFull = nil
+	e.modelOK = false
 	e.violated = false
 	e.steps = 0
 	e.S.send("(push)")
@@ -542,6 +546,56 @@ func (e *Explorer) declFun(name, sig string) {
 func (e *Explorer) assertPC(c string) {
 	e.S.send("(assert " + c + ")")
 	e.pc = append(e.pc, c)
+	if e.modelOK {
+		// the model survives only if it satisfies the new conjunct
+		if v, ok := e.evalTerm(c); !ok || !v.isBool || !v.b {
+			e.modelOK = false
+		}
+	}
+}
+
+// assertImplied: a conjunct that the current model is known to satisfy.
+func (e *Explorer) assertImplied(c string) {
+	e.S.send("(assert " + c + ")")
+	e.pc = append(e.pc, c)
+}
+
+// fetchModel reads the model of the last sat answer (its frame must still be in place).
+func (e *Explorer) fetchModel() {
+	e.model = map[string]evalVal{}
+	e.modelOK = false
+	if len(e.names) == 0 {
+		e.modelOK = true
+		return
+	}
+	vals := e.S.values(e.names)
+	for i, n := range e.names {
+		sort := e.decls[n]
+		v := strings.TrimSpace(vals[i])
+		if sort == "Bool" {
+			e.model[n] = evalVal{isBool: true, b: v == "true"}
+			continue
+		}
+		var w int
+		if _, err := fmt.Sscanf(sort, "(_ BitVec %d)", &w); err != nil || w > 64 {
+			continue
+		}
+		var u uint64
+		switch {
+		case strings.HasPrefix(v, "#x"):
+			fmt.Sscanf(v[2:], "%x", &u)
+		case strings.HasPrefix(v, "#b"):
+			for _, ch := range v[2:] {
+				u = u<<1 | uint64(ch-'0')
+			}
+		case strings.HasPrefix(v, "(_ bv"):
+			fmt.Sscanf(v, "(_ bv%d", &u)
+		default:
+			continue
+		}
+		e.model[n] = evalVal{v: u & mask(w), w: w}
+	}
+	e.modelOK = true
 }
 
 // decide chooses among n alternatives; cons(i) is the constraint of
@@ -600,6 +654,12 @@ func (e *Explorer) branch(c sym) bool {
 	if c.term == "false" {
 		return false
 	}
+	if e.pos >= len(e.prefix) && e.ModelEval {
+		if d, ok := e.branchWithModel(c); ok {
+			return d == 0
+		}
+	}
+	e.modelOK = false
 	d := e.decide(2, func(i int) string {
 		if i == 0 {
 			return c.term
@@ -607,6 +667,60 @@ func (e *Explorer) branch(c sym) bool {
 		return "(not " + c.term + ")"
 	})
 	return d == 0
+}
+
+// branchWithModel decides a fresh two-way branch with one solver query: the
+// side that the current model satisfies needs none.
+func (e *Explorer) branchWithModel(c sym) (int, bool) {
+	if !e.modelOK {
+		if r := e.S.checkT("", e.FeasMS); r != "sat" {
+			return 0, false
+		}
+		e.fetchModel()
+		if !e.modelOK {
+			return 0, false
+		}
+	}
+	v, ok := e.evalTerm(c.term)
+	if !ok || !v.isBool {
+		return 0, false
+	}
+	side := func(i int) string {
+		if i == 0 {
+			return c.term
+		}
+		return "(not " + c.term + ")"
+	}
+	known := 1
+	if v.b {
+		known = 0
+	}
+	other := 1 - known
+	e.pos++
+	r := e.S.checkT(side(other), e.FeasMS)
+	if r == "unsat" {
+		e.St.Infeas++
+		e.trace = append(e.trace, known)
+		e.assertImplied(side(known))
+		return known, true
+	}
+	if r != "sat" {
+		e.St.UnknownFeas++
+	}
+	// both sides are feasible (or the other one is kept): side 0 is explored first
+	if other == 0 {
+		if r == "sat" {
+			e.fetchModel() // a model of the side we are about to follow
+		} else {
+			e.modelOK = false
+		}
+	}
+	e.S.send("(pop)")
+	alt := append(append(make([]int, 0, len(e.trace)+1), e.trace...), 1)
+	e.Work = append(e.Work, alt)
+	e.trace = append(e.trace, 0)
+	e.assertImplied(side(0))
+	return 0, true
 }
 
 // concretize forks over the values 0..n-1 of an integer term.
